@@ -310,6 +310,12 @@ def rule_reset(ck):
             else:
                 o.fail('a path reaches this accumulation without resetting `%s`: events of the previous simulation remain in the '
                        'scratch array and the count assertion / statistics of later simulations are wrong' % arr)
+        for r in [x for x in returns(f) if x.value is not None and isinstance(x.value, ast.Name) and x.value.id == arr]:
+            o = ck.ob('C06-D6.return', f, r, r)
+            rn = cfg.node_of(r)
+            (o.ok('every path to this return has reset the scratch array') if any(cfg.dominates(x, rn) for x in reset_nodes) else
+             o.fail('a path returns the scratch array without having reset it (e.g. an early return for zero events): the "simulated catalog" '
+                    'is the previous simulation\'s catalog'))
         # count assertion
         o = ck.ob('C06-D7.assert', f, 'simulated count is asserted', f.node)
         asserts = [n for n in all_nodes(f) if isinstance(n, ast.Assert)]
